@@ -145,6 +145,11 @@ class Check(PropertyCheck):
             ang = G.rangle(rng)
             case = {'kind': pm, 'region': d, 'pts': [list(p) for p in pts], 'angle': ang,
                     'o': [rng.uniform(-3, 3), rng.uniform(-3, 3)]}
+            if 'c' in d and rng.random() < 0.3:
+                # the pivot is the region's own centre (exactly, or equal to it within PixCoord's `==` tolerance): only a
+                # circular annulus maps onto itself then
+                k_ = rng.choice([0.0, 0.0, 1e-7])
+                case['o'] = [d['c'][0] * (1 + k_), d['c'][1] * (1 + k_)]
             # history: the same OBJECT was used with other parameters before (annulus), or an operand of the
             # compound is re-parametrised in place after the compound was built and used
             if pm == 'annulus':
@@ -394,7 +399,8 @@ class Check(PropertyCheck):
                     bad('annulus_rotate_does_not_commute', f'point {p}: rotated outer={o2} inner={i2} -> {real["rot_a"][i]}')
                     break
             a, ao, ai = real['area']
-            if abs(a - (ao - ai)) > 1e-12 * max(abs(ao), 1e-300):
+            # (float32-typed sizes give float32 areas: the subtraction is then rounded to 2^-24 relative)
+            if abs(a - (ao - ai)) > (1e-6 if d.get('size_np') == 'float32' else 1e-12) * max(abs(ao), 1e-300):
                 bad('annulus_area_wrong', f'{a} vs {ao} - {ai}')
             if real.get('mask') is not None:
                 if real['bbox'] != real['bbox_union']:
